@@ -41,6 +41,19 @@ pub struct ReturnStatement(pub Option<PartV>);
 pub struct Assertion { pub value: PartV }
 pub struct PrintStatement(pub PartV);
 pub struct Reassignment { pub path: PartV, pub value: PartV }
+// collections of parts: a list literal's elements, a call's arguments, the steps of an index, a map literal's keys AND values
+pub struct List { pub values: Vec<PartV> }
+pub struct FunctionArguments(pub Vec<PartV>);
+#[verifier::external_body] pub struct StepKind { x: usize }
+pub struct Index { pub parts: Vec<(PartV, StepKind)> }
+pub struct MapInitializer { pub map: Vec<(PartV, PartV)> }
+pub struct Map { pub initializer: MapInitializer }
+pub open spec fn deps_all(s: Seq<PartV>) -> Set<Dep> decreases s.len() { if s.len() == 0 { Set::<Dep>::empty() } else { deps_all(s.drop_last()).union(nd(s.last())) } }
+pub open spec fn deps_firsts(s: Seq<(PartV, StepKind)>) -> Set<Dep> decreases s.len() { if s.len() == 0 { Set::<Dep>::empty() } else { deps_firsts(s.drop_last()).union(nd(s.last().0)) } }
+pub open spec fn deps_pairs(s: Seq<(PartV, PartV)>) -> Set<Dep> decreases s.len() { if s.len() == 0 { Set::<Dep>::empty() } else { deps_pairs(s.drop_last()).union(nd(s.last().0)).union(nd(s.last().1)) } }
+pub proof fn lemma_all_step(l: Seq<PartV>, k: int) requires 0 <= k < l.len() ensures deps_all(l.subrange(0, k + 1)) == deps_all(l.subrange(0, k)).union(nd(l[k])) { assert(l.subrange(0, k + 1).drop_last() =~= l.subrange(0, k)); }
+pub proof fn lemma_firsts_step(l: Seq<(PartV, StepKind)>, k: int) requires 0 <= k < l.len() ensures deps_firsts(l.subrange(0, k + 1)) == deps_firsts(l.subrange(0, k)).union(nd(l[k].0)) { assert(l.subrange(0, k + 1).drop_last() =~= l.subrange(0, k)); }
+pub proof fn lemma_pairs_step(l: Seq<(PartV, PartV)>, k: int) requires 0 <= k < l.len() ensures deps_pairs(l.subrange(0, k + 1)) == deps_pairs(l.subrange(0, k)).union(nd(l[k].0)).union(nd(l[k].1)) { assert(l.subrange(0, k + 1).drop_last() =~= l.subrange(0, k)); }
 // a dot chain: `.field` and `.method(args)` links; it depends on the arguments of every method call in it
 pub enum DotLookupOption { Name { name: PartV }, FunctionCall { function_name: PartV, arguments: PartV, assume_self_is_on_top: bool } }
 pub struct DotChain { pub links: Vec<DotLookupOption> }
@@ -117,10 +130,63 @@ def build(repo):
 }}
 """)
     obls.append(Obl("C07.deps.stmt.dot-chain", ["C07"], fn="DotChain::dependencies", desc="DotChain::dependencies: the arguments of every method call in the chain"))
+    # ---- collections: flat_map over the elements (List, FunctionArguments, Index) and the pair loop of Map
+    def flat(label, vec, spec, lemma):
+        def repl(b):
+            x, body = text(b["x"]), b["body"]
+            k, acc = f"verif_k_{label}", f"verif_acc_{label}"
+            inv = f"invariant {k} <= {vec}@.len(), {acc}@.to_set() == {spec}({vec}@.subrange(0, {k} as int)) decreases {vec}@.len() - {k}"
+            return ["{", f"let mut {acc} = vempty ( ) ; let mut {k} : usize = 0 ; while {k} < {vec} . len ( )", G(inv), "{", f"let {x} = & {vec} [ {k} ] ; {k} += 1 ;",
+                    G(f"proof {{ {lemma}({vec}@, {k} as int - 1); }}"), "let mut verif_t =", *body, f"; vappend ( & mut {acc} , & mut verif_t ) ;", "}",
+                    G(f"proof {{ assert({vec}@.subrange(0, {vec}@.len() as int) =~= {vec}@); }}"), acc, "}"]
+        return repl
+    COLL = [
+        ("list", "list.rs", "impl Dependencies for List", "List", "self . values", "deps_all", "lemma_all_step", "deps_all(self.values@)", "every element"),
+        ("args", "function_arguments.rs", "impl Dependencies for FunctionArguments", "FunctionArguments", "self . 0", "deps_all", "lemma_all_step", "deps_all(self.0@)", "every argument"),
+        ("index", "list.rs", "impl Dependencies for Index", "Index", "self . parts", "deps_firsts", "lemma_firsts_step", "deps_firsts(self.parts@)", "every index expression"),
+    ]
+    for (oid, file, hdr, recv, vec, spec, lemma, post, desc) in COLL:
+        fx = src.fn(AST + file, "dependencies", hdr)
+        bx = translate(fx["body"], [Rule("R2", vec + " . iter ( ) . flat_map ( | $x | $$body ) . collect ( )", flat(oid, vec.replace(" ", ""), spec, lemma), count=1,
+                                         why="iter().flat_map(f).collect(): the closure's results concatenated (as a set: their union)")], log, f"{recv}::dependencies")
+        check_closed(bx, f"{recv}::dependencies")
+        parts.append(f"""impl {recv} {{
+    //@ OBL C07.deps.stmt.{oid}
+    #[verifier::loop_isolation(false)]
+    pub fn dependencies(&self) -> (r: Vec<Dep>)
+        ensures r@.to_set() == {post}
+    {{
+{render(bx, 2)}
+    }}
+}}
+""")
+        obls.append(Obl(f"C07.deps.stmt.{oid}", ["C07", "C02"], fn=f"{recv}::dependencies", desc=f"{recv}::dependencies: {desc}"))
+    fmp = src.fn(AST + "map.rs", "dependencies", "impl Dependencies for Map")
+    invm = "invariant verif_k_m <= self.initializer.map@.len(), result@.to_set() == deps_pairs(self.initializer.map@.subrange(0, verif_k_m as int)) decreases self.initializer.map@.len() - verif_k_m"
+    bmp = translate(fmp["body"], RULES + [
+        Rule("R2", "for ( $k , $v ) in & self . initializer . map { $$body }", lambda b: ["let mut verif_k_m : usize = 0 ; while verif_k_m < self . initializer . map . len ( )", G(invm), "{",
+             f"let {text(b['k'])} = & self . initializer . map [ verif_k_m ] . 0 ; let {text(b['v'])} = & self . initializer . map [ verif_k_m ] . 1 ; verif_k_m += 1 ;",
+             G("proof { lemma_pairs_step(self.initializer.map@, verif_k_m as int - 1); }"), *b["body"], "}"], why="for over &Vec<(K, V)> -> indexed while"),
+    ], log, "Map::dependencies")
+    check_closed(bmp, "Map::dependencies")
+    if "verif_k_m" not in bmp or bmp[-1] != "result":
+        raise Undecided("Map::dependencies: the pair loop / final `result` not found")
+    bmp = bmp[:-1] + [G("proof { assert(self.initializer.map@.subrange(0, self.initializer.map@.len() as int) =~= self.initializer.map@); }"), "result"]
+    parts.append(f"""impl Map {{
+    //@ OBL C07.deps.stmt.map
+    #[verifier::loop_isolation(false)]
+    pub fn dependencies(&self) -> (r: Vec<Dep>)
+        ensures r@.to_set() == deps_pairs(self.initializer.map@)
+    {{
+{render(bmp, 2)}
+    }}
+}}
+""")
+    obls.append(Obl("C07.deps.stmt.map", ["C07", "C02"], fn="Map::dependencies", desc="Map::dependencies: every key AND every value of the literal"))
     gen = header(log, "impl Dependencies for IfStatement / ElseStatement / WhileLoop / NumberLoop / ReturnStatement / Assertion / PrintStatement / Reassignment (/ ReassignmentPath) :: dependencies") + SPEC + "\n".join(parts) + "\n} // verus!\nfn main() {}\n"
     return gen, obls, log
 
 
-UNITS = [VUnit("c07_stmt_deps", ["C07"], "what a statement depends on = what a closure must capture", build)]
+UNITS = [VUnit("c07_stmt_deps", ["C07", "C02"], "what a statement depends on = what a closure must capture", build)]
 UNITS[0].assumes = ["the statements' struct shapes (field names, Option / Box kinds) are written by hand from the declarations; a renamed field fails closed (does not compile -> undecided)",
                     "net_dependencies of every part is an abstract callee, compared as a set; get_net_dependencies (the supplies filter), Block, Function and Class are not under contract here"]
